@@ -252,7 +252,7 @@ def _string_param(fn):
     return None
 
 
-def _per_char(fn, pname, probes, known, module_resolver):
+def _per_char(fn, pname, probes, known, module_resolver, facts=None):
     """-> {probe: string} or raises Unknown."""
     body = fn.body
     stmts = rx.stmts_of(body)
@@ -327,10 +327,39 @@ def _per_char(fn, pname, probes, known, module_resolver):
                     cp = rx.closure_params(clo)[0]
                     if cp["k"] == "ident":
                         res = {}
-                        for p in probes:
-                            ev = Eval(cp["name"], p)
-                            res[p] = ev.value(clo["body"])
-                        return res
+                        try:
+                            for p in probes:
+                                ev = Eval(cp["name"], p)
+                                res[p] = ev.value(clo["body"])
+                            return res
+                        except Unknown:
+                            if facts is None:
+                                raise
+                        # the per-character closure is written with iterator adaptors, Option combinators, local
+                        # bindings…: evaluate it (vlib/probe.py) on each probe character; "any other character" is
+                        # represented by a character the crate never writes
+                        from . import probe as P
+
+                        OTHER_REP = "\ue000"
+                        pr = P.Probe(facts, None, fn.module)
+                        res = {}
+                        try:
+                            fv = pr.ev(clo, {})
+                            for p in probes:
+                                r_ = pr.apply(fv, [OTHER_REP if p == OTHER else p])
+                                if r_ is None or (isinstance(r_, tuple) and r_ and r_[0] == "some"):
+                                    r_ = [] if r_ is None else [r_[1]]
+                                if isinstance(r_, str):
+                                    r_ = list(r_)
+                                if not isinstance(r_, list) or not all(isinstance(x, str) for x in r_):
+                                    raise Unknown("per-character value %r" % (r_,))
+                                flat = []
+                                for x in r_:
+                                    flat += list(x)
+                                res[p] = [OTHER if x == OTHER_REP else x for x in flat]
+                            return res
+                        except (P.NoEval, P.Panic) as ex:
+                            raise Unknown("per-character closure: %s" % ex)
     raise Unknown("function shape")
 
 
@@ -369,7 +398,7 @@ def discover(facts):
                 continue
             probes = sorted(set(BASE_PROBES) | _lits(fn.body) | _pat_lits(fn.body) | {c for k in known for c in known[k]["probes"]}) + [OTHER]
             try:
-                res = _per_char(fn, pn, probes, known, resolver_for(fn))
+                res = _per_char(fn, pn, probes, known, resolver_for(fn), facts)
             except Unknown as e:
                 rejected[key] = str(e)
                 continue
